@@ -56,6 +56,18 @@ def run(pid):
         jobs.append({"job_id": len(jobs) + 1, "rate": 44100, "bps": bps, "channels": ch,
                      "opts": {"block_size": bs, "max_lpc": 32, "max_po": 3, "mid_side": True, "fast_corr": False, "padding": -1, "seektable": "none"},
                      "pcm": {"signal": "hitone", "seed": 777 + bs, "frames": bs * 60 + 5}})
+    # blocks exactly as long as the LPC order allows, one longer, one shorter (a whole block size of order + 1, and a final short block of
+    # order, order + 1, order + 2 samples), on bursts a one-tap predictor follows and the fixed ones do not: which candidates are tried at
+    # all must not depend on the build
+    for order in (1, 4, 8, 12, 15, 31, 32):
+        for d in (0, 1, 2):
+            n = order + d
+            for bs, frames in ((max(16, n), max(16, n) * 20), (4096, 4096 + n), (256, 256 * 2 + n), (4096, n)):
+                if frames < 1:
+                    continue
+                jobs.append({"job_id": len(jobs) + 1, "rate": 44100, "bps": rnd.choice([16, 24]), "channels": rnd.choice([1, 2]),
+                             "opts": {"block_size": bs, "max_lpc": order, "max_po": rnd.choice([0, 5]), "mid_side": True, "fast_corr": False, "padding": -1, "seektable": "none"},
+                             "pcm": {"signal": "altdecay:%d" % (bs if bs < 100 else n), "seed": 99, "frames": frames}})
     sp = os.path.join(wd, "serial.ndjson")
     run_drive("serial", {"out": sp, "jobs": jobs}, wd, tag="serial")
     pools = [1, 2, 3, 4, 8, 16]
